@@ -28,8 +28,8 @@ ASSUMPTIONS = [
     "for mixed-type sequences only the laws are checked, not a particular inferred dtype",
 ]
 BOUND = {
-    "quick": "sequences of length 0..3 over 26 scalars; explicit dtypes for homogeneous sequences; equal() relation over all pairs of vectors of length <= 2 built from 14 scalars",
-    "thorough": "sequences of length 0..4 over 26 scalars; equal() relation over all pairs of vectors of length <= 2 built from all 26 scalars (vectors reported equal must also hold == values position by position)",
+    "quick": "sequences of length 0..3 over 27 scalars; explicit dtypes for homogeneous sequences; equal() relation over all pairs of vectors of length <= 2 built from 14 scalars",
+    "thorough": "sequences of length 0..4 over 27 scalars; equal() relation over all pairs of vectors of length <= 2 built from all 27 scalars (vectors reported equal must also hold == values position by position)",
 }
 TIME_CAP = {"quick": 240, "thorough": 3000}
 
@@ -65,6 +65,7 @@ SCALARS = {
     "True": True,
     "1": 1,
     "big": 2 ** 53 + 1,
+    "i24": 2 ** 24 + 1,      # fits int32, is not a float32
     "1.5": 1.5,
     "complex": 1 + 2j,
     "a": "a",
@@ -90,14 +91,14 @@ SCALARS = {
 NAMES = list(SCALARS)
 MISSING = {"None", "nan", "npnan"}
 FAMILY = {
-    "True": "bool", "1": "int", "big": "int", "1.5": "float", "complex": "complex", "a": "str", "empty": "str", "long1": "str", "long2": "str",
+    "True": "bool", "1": "int", "big": "int", "i24": "int", "1.5": "float", "complex": "complex", "a": "str", "empty": "str", "long1": "str", "long2": "str",
     "date": "date", "datetime": "datetime", "timedelta": "timedelta", "bytes": "bytes",
     "np.int64": "np.int", "np.float64": "np.float", "np.bool": "np.bool", "np.str": "np.str",
     "np.dt64": "np.dt64", "np.NaT": "np.dt64", "np.td64": "np.td64", "dict": "object", "inst": "object", "aloof": "object",
 }
 DATEISH = {"date", "datetime", "np.dt64"}
 EXPLICIT = {
-    "int": [int, float, object],
+    "int": [int, float, object, "int32"],
     "float": [float, object],
     "bool": [bool, object],
     "str": [str, object],
@@ -166,6 +167,10 @@ def expected_homogeneous(fam, has_missing, dtype):
         return None
     if dtype is int:
         return ("float64", "nan") if has_missing else ("int64", None)
+    if dtype == "int32":
+        # widened to some float when a missing value has to be held: which one is not stated, but tolist() must
+        # give the original values back (checked below), so the float must be wide enough for every int32
+        return (None, "nan") if has_missing else ("int32", None)
     if dtype is float:
         return ("float64", "nan")
     if dtype is bool:
@@ -409,6 +414,8 @@ def seq_cases(names):
     if hm is not None:
         fam, has_missing = hm
         for d in EXPLICIT.get(fam, []):
+            if d == "int32" and "big" in names:
+                continue  # does not fit the requested type
             yield {"names": list(names), "dtype": dtype_arg(d)}
     elif names and all(x in MISSING for x in names):
         # entirely missing input with an explicit dtype: the dtype's own missing value everywhere
